@@ -3,6 +3,7 @@
 # the set of passing tests with /root/.vp/BASELINE.json (stable_pass).
 # usage: tools/baseline.sh [-n N] [pytest args / test paths]
 unset HITEN_VERIF
+export NUMBA_NUM_THREADS="${BASELINE_NUMBA_THREADS:-16}" OMP_WAIT_POLICY=passive
 OUT="${BASELINE_OUT:-/verif/.cache/baseline}"
 mkdir -p "$OUT"
 XD=""
